@@ -402,17 +402,21 @@ def make_buffer(r: Rng, t: typing.Any, counters: dict) -> typing.Tuple[bytes, st
 CAP_SPECIAL = [0xFFFFFFFF, 0xFFFFFFFE, 0xFFFFFFFD, 0, 1]
 
 
-def make_ops(r: Rng, types: list, n: int, is_c: bool, counters: dict, full_cap_only: bool = False, allow_null: bool = True) -> typing.List[list]:
+def make_ops(r: Rng, types: list, n: int, is_c: bool, counters: dict, full_cap_only: bool = False, allow_null: bool = True, checked_types: typing.Optional[typing.Set[int]] = None) -> typing.List[list]:
+    """checked_types (capacity-override build): indices of the types whose own capacities the user did NOT reduce - their up-front
+    buffer check is still compiled in, so undersized buffers are legitimate inputs for them"""
     ops = []  # type: typing.List[list]
     nt = len(types)
     i = 0
     last_kind = [""]
+    full_cap_only_all = full_cap_only
     while len(ops) < n:
         ro = r.sub(i)
         i += 1
         ti = ro.below(nt)
         sl = ro.below(4)
         t = types[ti]
+        full_cap_only = full_cap_only_all and not (checked_types is not None and ti in checked_types)
         kind = ro.weighted([("des", 50), ("ser", 24), ("init", 3), ("poison", 7), ("corrupt", 6), ("scribble", 6), ("copy", 4), ("move", 2 if not is_c else 0), ("reconstruct", 1 if not is_c else 0), ("selfassign", 1 if not is_c else 0), ("swap", 2 if not is_c else 0)])
 
         def des() -> list:
@@ -590,7 +594,15 @@ def run_case(case: dict, ctx: dict) -> dict:
     else:
         r = Rng(*case["ops_seed"])
         n = case.get("n_ops") or (1500 if tier == "quick" else 12000)
-        ops = make_ops(r, types, n, is_c, counters["buffers"], full_cap_only=bool(cfg.get("override_varlen")) and is_c, allow_null=not (cfg.get("asserts") and not is_c))
+        checked = None
+        if cfg.get("override_varlen") and is_c:
+            # the documented rule: the buffer check of a type is compiled out only if the user supplied one of ITS capacities
+            checked = set()
+            for ti_, t_ in enumerate(types):
+                pfx = "-D%s_%d_%d_" % (t_.full_name.replace(".", "_"), t_.version.major, t_.version.minor)
+                if not any(d.startswith(pfx) for d in defs):
+                    checked.add(ti_)
+        ops = make_ops(r, types, n, is_c, counters["buffers"], full_cap_only=bool(cfg.get("override_varlen")) and is_c, allow_null=not (cfg.get("asserts") and not is_c), checked_types=checked)
     exec_case["ops"] = ops
     script = os.path.join(work, "script.bin")
     write_script(script, ops)
